@@ -635,6 +635,13 @@ func buildSetEvents(id string, task *Task, updates map[string]string, agentID st
 
 	// If claim was set to a non-empty value and state wasn't explicitly set, default to doing
 	if claimWasSet && claimValue != "" && !stateWasSet {
+		// The implied doing is a state change like any other.
+		if err := validateTransition(task.State, stateDoing); err != nil {
+			return nil, nil, err
+		}
+		if err := validateClaimInvariant(stateDoing, claimValue); err != nil {
+			return nil, nil, err
+		}
 		event, err := newEvent("state", now, StateEvent{
 			ID:       id,
 			NewState: stateDoing,
